@@ -17,6 +17,11 @@ def worst_case_families():
         fam.append(([B // 2] * (4 * m) + [B // 4] * (4 * m), B, None))
         # three-quarters family
         fam.append(([B // 2 + 1] * (2 * m) + [B // 3] * (4 * m) + [1] * (6 * m), B, None))
+    # the same tight shapes at large OPT (known by construction): the guarantees differ by an additive constant, so a weaker heuristic behind a
+    # stronger one's name only shows beyond OPT ~ 40
+    for m in (12, 24, 48, 72, 96):
+        fam.append(([499] * (2 * m) + [1] * (2 * m), 1000, m))            # tight for two-thirds: two 499 + two 1 fill a bin exactly
+        fam.append(([999] * (2 * m) + [1] * (2 * m), 1000, 2 * m))        # tight for next-fit decreasing
     return fam
 
 
@@ -28,13 +33,13 @@ def t3(rep, tier, seed):
         dom = [dict(d, algo=algo) for d in base]
         for vals, B, opt in worst_case_families():
             if opt is not None or len(vals) <= 14:
-                dom.append({"algo": algo, "values": vals, "B": B, "opt": opt})
+                dom.extend({"algo": algo, "values": vals, "B": B, "opt": opt, "fmt": fmt} for fmt in ("list", "names", "dict", "names:asc", "names:valley", "names:pyramid"))
         rep.add(H.run_case(f"C10/T3/{algo}/ratio", f"prtpy.packing.covering::{algo}", T.c10_case, dom, bound, chunk=32))
         pl = []
         for _ in range(40 if tier == "quick" else 400):
             nb = rng.randint(3, 60); B = rng.choice([12, 60, 100])
-            pl.append({"algo": algo, "values": T.planted_perfect_packing(rng, nb, B, 5), "B": B, "opt": nb})
-        rep.add(H.run_case(f"C10/T3/{algo}/planted-ratio", f"prtpy.packing.covering::{algo}", T.c10_case, pl, "planted instances built as OPT exactly-full bins (3..60 bins, <=5 items per bin)"))
+            pl.append({"algo": algo, "values": T.planted_perfect_packing(rng, nb, B, 5), "B": B, "opt": nb, "fmt": ("list", "names", "dict", "array", "names:asc", "names:desc", "names:valley", "names:pyramid")[len(pl) % 8]})
+        rep.add(H.run_case(f"C10/T3/{algo}/planted-ratio", f"prtpy.packing.covering::{algo}", T.c10_case, pl, "planted instances built as OPT exactly-full bins (3..60 bins, <=5 items per bin), presented in turn as list / names+valueof / dict / array / names whose order is adversarial to the values (ascending, descending, valley, pyramid)"))
 
 
 def run(rep, tier, seed):
